@@ -155,7 +155,22 @@ func (e *Engine) feasible(st *State, c *Term) (bool, *Env, bool) {
 			return true, e.combineModel(st, r.model, rel), true
 		}
 	}
+	t0 := time.Now()
 	res, model, diag := e.decide(as)
+	if e.trace {
+		loc := "?"
+		if n := len(st.frames); n > 0 {
+			f := st.frames[n-1]
+			loc = f.fn.Name()
+			if f.ip < len(f.block.Instrs) {
+				loc += ": " + f.block.Instrs[f.ip].String()
+			}
+			if n > 1 {
+				loc = st.frames[n-2].fn.Name() + " > " + loc
+			}
+		}
+		fmt.Printf("QUERY %v %.2fs conj=%d nodes=%d at %s\n", res, time.Since(t0).Seconds(), len(as), len(e.ts.Cone(as...)), loc)
+	}
 	if res != Unknown {
 		e.queryCache[key] = cachedQuery{res, model}
 	}
